@@ -12,6 +12,8 @@ pub struct PreProcessor<T: TokenStream> {
     token_stream: T,
     macros: HashSet<EcoString>,
     error: Option<EcoString>,
+    // conditionals whose enabled branch is being delivered and whose #endif has not been seen yet
+    open_conditionals: usize,
 }
 
 impl<T: TokenStream> TokenStream for PreProcessor<T> {
@@ -42,6 +44,7 @@ impl<T: TokenStream> PreProcessor<T> {
             token_stream,
             macros: HashSet::new(),
             error: None,
+            open_conditionals: 0,
         }
     }
 
@@ -60,6 +63,10 @@ impl<T: TokenStream> PreProcessor<T> {
             T![#else] => self.process_else(),
             T![#endif] => self.process_endif(),
             T![#define] => self.process_define(),
+            TokenKind::Eof if self.open_conditionals > 0 => {
+                self.open_conditionals = 0;
+                self.error("reached EOF without matching #endif")
+            }
             kind => kind,
         }
     }
@@ -81,6 +88,7 @@ impl<T: TokenStream> PreProcessor<T> {
                 {
                     return self.eat_until_else_or_endif();
                 }
+                self.open_conditionals += 1;
                 TokenKind::PreProcessor
             }
             _ => match if_kind {
@@ -91,10 +99,13 @@ impl<T: TokenStream> PreProcessor<T> {
     }
 
     fn process_else(&mut self) -> TokenKind {
+        // the enabled branch ends here; the conditional is closed by the #endif the skip stops at
+        self.open_conditionals = self.open_conditionals.saturating_sub(1);
         self.eat_until_else_or_endif()
     }
 
     fn process_endif(&mut self) -> TokenKind {
+        self.open_conditionals = self.open_conditionals.saturating_sub(1);
         TokenKind::PreProcessor
     }
 
@@ -130,7 +141,12 @@ impl<T: TokenStream> PreProcessor<T> {
                 T![#endif] if depth >= 2 => {
                     depth -= 1;
                 }
-                T![#else] | T![#endif] if depth == 1 => {
+                T![#else] if depth == 1 => {
+                    // the branch after #else is delivered: the conditional stays open until its #endif
+                    self.open_conditionals += 1;
+                    return TokenKind::PreProcessor;
+                }
+                T![#endif] if depth == 1 => {
                     return TokenKind::PreProcessor;
                 }
                 TokenKind::Eof => {
